@@ -1,3 +1,4 @@
+#![feature(allocator_api)]
 #![allow(unused_imports, unused_variables, unused_mut, dead_code, unused_assignments, non_snake_case, unused_parens, unused_unsafe)]
 use vstd::prelude::*;
 use std::collections::HashMap;
